@@ -164,6 +164,12 @@ def run(tier, rep):
     for k, d in enumerate(gen.sample(docs, 6000 if q else 80000, C.SEED + 3) + dense):
         for n, rel in enumerate(("table", "strikethrough", "inline_definitions", "store_labels")):
             j2.append((rel, bases[(k + n) % len(bases)], d))
+    # the two add-only options on every document that holds a definition (in any container, before / after blanks)
+    import re
+    full = gen.docs("L1", tier, rep)
+    withdef = [d for d in full if re.search(r"\[[aA]\]: ", d)]
+    for k, d in enumerate(gen.sample(withdef, 6000 if q else 80000, C.SEED + 8, keep_short=2000)):
+        j2.append((("inline_definitions", "store_labels")[k % 2], bases[k % 2], d))
     # the two extensions against the barest base (zero preset: nothing else is enabled that could mask a difference)
     zero = gen.cfg_key(gen.BASE_CONFIGS[2])
     for k, d in enumerate(gen.sample(docs, 5000 if q else 60000, C.SEED + 4, keep_short=1500)):
